@@ -80,8 +80,8 @@ def groupConsts (nodes : List Node) : List (String × List Node) :=
 mutual
 /-- the body of `convergeNodesPaths` after the `len(nodes) <= 1` early returns -/
 partial def mergeNodes (nodes : List Node) (idx : Nat) (cands : List Node := nodes) : Node :=
-  let sample := match nodes with | n :: _ => n.hasVal | [] => false
-  let amb := cands.any (fun c => c.amb || c.hasVal != sample)
+  let sample := nodes.any (·.hasVal)   -- value of the first merged node that has one
+  let amb := false
   let params := nodes.filterMap (·.param)
   let wild := match nodes.getLast? with | some n => n.wild | none => none
   let cc := (groupConsts nodes).map fun g => (g.1, convergeNodes g.2 idx)
@@ -198,15 +198,23 @@ def Tree.normalizeURL (t : Tree) (u : String) : String × Tree :=
   let consulted := (t'.lookupRaw u).2.startsWith "\u0001"
   (if m then nu else u, { t' with nondet := t'.nondet || consulted })
 
-/-- `common.NormalizeTree`: (tree, convergenceOccurred, error); stops at the first error. -/
-def Tree.normalizeTree : Tree → List String → Tree × Bool × Bool
-  | t, [] => (t, false, false)
+/-- `common.NormalizeTree`: (tree, convergenceOccurred); a refused URL is skipped (logged), never an error. -/
+def Tree.normalizeTree : Tree → List String → Tree × Bool
+  | t, [] => (t, false)
   | t, u :: us =>
-    let (t1, cv, er) := t.insert false u
-    if er then (t1, false, true)
-    else
-      let (t2, cv2, er2) := normalizeTree t1 us
-      (t2, cv || cv2, er2)
+    let (t1, cv, _) := t.insert false u
+    let (t2, cv2) := normalizeTree t1 us
+    (t2, cv || cv2)
+
+/-- the loop of `ConvergeAggregation`: repeat `NormalizeTree` until a pass signals no convergence
+    (`fuel` = the Go loop has no bound; every pass that continues has merged at least one node) -/
+def Tree.normalizeFix : Nat → Tree → List String → Tree × Bool
+  | 0, t, _ => (t, false)
+  | fuel + 1, t, us =>
+    let (t1, cv) := t.normalizeTree us
+    if cv then ((normalizeFix fuel t1 us).1, true) else (t1, false)
+
+def fixFuel : Nat := 1000
 
 /-- `common.BuildTree`: `none` = error. -/
 def buildTree (thr : Nat) (known : List String) : Option Tree :=
@@ -230,8 +238,7 @@ def stepT (t : Tree) (A : Agg) (batch : List Rec) : Tree × Agg × Bool :=
   if batch.isEmpty then (t, A, false) else
   let rs := external batch
   -- ConvergeAggregation
-  let (t1, cv, er) := t.normalizeTree (rs.map (·.url))
-  if er then (t1, A, true) else
+  let (t1, cv) := t.normalizeFix fixFuel (rs.map (·.url))
   let (A1, t2) :=
     if cv then
       let (eu, ta) := normAll t1 (A.endpoints.map (·.1.2))
@@ -252,9 +259,9 @@ def stepT (t : Tree) (A : Agg) (batch : List Rec) : Tree × Agg × Bool :=
 
 /-- The abstract `Normaliser` read off the concrete tree (pure: the mutated tree of `NormalizeURL` is dropped). -/
 def treeNormaliser : Normaliser Tree :=
-  { learn := fun t us => (t.normalizeTree us).1
+  { learn := fun t us => (t.normalizeFix fixFuel us).1
     norm := fun t u => (t.normalizeURL u).1
-    conv := fun t us => (t.normalizeTree us).2.1
-    fails := fun t us => (t.normalizeTree us).2.2 }
+    conv := fun t us => (t.normalizeFix fixFuel us).2
+    fails := fun _ _ => false }
 
 end LunarVerif.C15
